@@ -193,12 +193,12 @@ META = dict(
                "and only finish for short values (stated bound).",
     bounds=dict(quick="undisturbed: lengths 1,6,7,8,14,15,21,22,50,889,890 x CRC on/off x size indicated or not x 3 reading "
                       "modes; faults with CRC: every lost segment for 22 and 50 bytes, wrong CRC, malformed end frame; "
-                      "bit flips for 7 and 14 bytes",
-                thorough="every length 1..64, 888..890, 896, 1000, 1778, 1779; losses for 14..100 bytes; bit flips up to 21 bytes"),
+                      "bit flips for 7 and 14 bytes; buffered stream read in pieces (6 buffer/piece combinations incl. 1024/1023)",
+                thorough="every length 1..64, 888..890, 896, 1000, 1778, 1779; losses for 14..100 bytes; bit flips up to 21 bytes; 58 buffer/piece combinations"),
     outside_bounds=["faults without CRC negotiated (the statement does not promise detection)", "more than one fault",
                     "bit flips in values longer than 21 bytes (unsat proofs time out)", "loss of client->server frames"],
     assumptions=["the server restarts sequence numbers at 1 after every acknowledge, as CiA 301 prescribes"],
-    stubs=["struct", "binascii.crc_hqx (z3 model)", "queue", "time", "io model", "logging"],
+    stubs=["struct", "binascii.crc_hqx (z3 model)", "queue", "time", "io model (BufferedWriter/BufferedReader after CPython bufferedio.c, views into the recycled buffer)", "logging"],
     required_reach=["clean", "failed-visibly", "returned-after-fault"],
     limits=dict(quick=dict(max_decisions=50000), thorough=dict(max_decisions=200000)),
     validate_every=dict(quick=1, thorough=1),
